@@ -7,7 +7,7 @@
    oracle.  "fresh" blocks are blocks that did not exist before the call: storage that nothing
    else can reach.  The metadata / slice containers are covered by the sanitizer run only.
    Statements only; proofs in MemFacts.v. *)
-From Sbdf Require Import Imp ImpCall Gen.Prog ImpBase ImpFactsCells ImpFactsDestroy ImpFactsRelease ImpFactsReleaseAll.
+From Sbdf Require Import Imp ImpCall Gen.Prog ImpBase ImpFactsCells ImpFactsDestroy ImpFactsRelease ImpFactsReleaseAll ImpFactsReleaseTs ImpFactsMdDestroy ImpFactsTmDestroy.
 From Coq Require Import List.
 From Sbdf Require Import Mem MemFacts.
 
@@ -203,3 +203,37 @@ Theorem C12_source_cs_destroy_owning : forall k sx m h cb values n names props o
     Imp.lookup cells_var (vars fin) = Some (VHeap (kill cb (kill pb (kill nb h3)))).
 Proof. exact cs_destroy_owned_source. Qed.
 Print Assumptions C12_source_cs_destroy_owning.
+
+(* ---- the rest of the destroy family from the source.
+   sbdf_ts_destroy on a slice that owns its columns (built by the reader): every column slot, in order, goes to
+   sbdf_cs_destroy exactly once - an empty slot left by a subset read is a no-op, an owning column slice goes
+   through sbdf_cs_destroy_all (cs_destroys) - then the columns array and the struct are released.
+   sbdf_md_destroy: every entry front to back (md_destroys: value and default destroyed, name handed to
+   sbdf_str_destroy, block released, the next pointer read before the block goes), then the head.
+   sbdf_tm_destroy: the table-level metadata, then every column's metadata in order, each to sbdf_md_destroy
+   exactly once; then the column array and the struct.  Each call runs to completion: no released block is
+   read, written or released again. *)
+Theorem C12_source_ts_destroy_owning : forall k sx m h tb meta n cols owned colb ccells cused cslack h2, owned <> 0 -> n < int_max ->
+  ts_block h tb meta n cols owned -> as_ptr cols = VCell colb 0 -> nth_error h colb = Some (Some ccells) ->
+  ccells = cused ++ cslack -> zlen cused = n -> cs_destroys_list m [tb; colb] h cused h2 -> tb <> colb ->
+  exists f0, forall f, (f0 <= f)%nat -> exists fin,
+    callC prog_env f prog_sbdf_ts_destroy [VCell tb 0] m k sx h = ONormal fin /\ inb fin = m /\
+    Imp.lookup cells_var (vars fin) = Some (VHeap (kill tb (kill colb h2))).
+Proof. exact ts_destroy_owned_source. Qed.
+Print Assumptions C12_source_ts_destroy_owning.
+
+Theorem C12_source_md_destroy : forall k sx m h hb first modif h2, nth_error h hb = Some (Some [first; VInt modif]) ->
+  md_destroys m h (as_ptr first) h2 -> nth_error h2 hb = Some (Some [first; VInt modif]) ->
+  exists f0, forall f, (f0 <= f)%nat -> exists fin,
+    callC prog_env f prog_sbdf_md_destroy [VCell hb 0] m k sx h = ONormal fin /\ inb fin = m /\ Imp.lookup cells_var (vars fin) = Some (VHeap (kill hb h2)).
+Proof. exact md_destroy_source. Qed.
+Print Assumptions C12_source_md_destroy.
+
+Theorem C12_source_tm_destroy : forall k sx m h tb tmd n cm cmb ccells cused cslack h1 h2, n < int_max ->
+  tm_block h tb tmd n cm -> mdh_destroys m h tmd h1 -> (forall b, In b [tb; cmb] -> nth_error h1 b = nth_error h b) ->
+  as_ptr cm = VCell cmb 0 -> nth_error h cmb = Some (Some ccells) -> ccells = cused ++ cslack -> zlen cused = n ->
+  mdh_destroys_list m [tb; cmb] h1 cused h2 -> tb <> cmb ->
+  exists f0, forall f, (f0 <= f)%nat -> exists fin,
+    callC prog_env f prog_sbdf_tm_destroy [VCell tb 0] m k sx h = ONormal fin /\ inb fin = m /\ Imp.lookup cells_var (vars fin) = Some (VHeap (kill tb (kill cmb h2))).
+Proof. exact tm_destroy_source. Qed.
+Print Assumptions C12_source_tm_destroy.
